@@ -193,6 +193,7 @@ type v06World struct {
 	hist      []v06Event
 	probes    map[string]*v06Probe
 	park      *v06Park
+	witnessN  int
 	srv       Server
 	udp       net.PacketConn
 	readers   sync.WaitGroup
